@@ -6,6 +6,12 @@ HERE = os.path.dirname(os.path.dirname(os.path.abspath(__file__)))
 
 # id -> (category, technique, level text, level note, design ref)
 CHECKS = {
+ "C01": ("exploration", "bounded-exhaustive program enumeration (MiniCairo families) x full boundary input cross product, compiled and run on the real pipeline against an independent reference evaluator",
+         "Every program of each bounded family (expression trees, control skeletons, data movement, collection-operation sequences, liveness patterns) is compiled under two configurations and run on every input of the boundary cross product; the result felts or the exact panic data must equal those of a small big-step evaluator written independently (num-bigint, Vec, BTreeMap).",
+         "The evaluator is the specification for the modelled subset only; constructs outside MiniCairo are covered differentially by C05.", "DESIGN.md §3 C01"),
+ "C08": ("exploration", "bounded-exhaustive enumeration: well-typed-by-construction programs x the configuration lattice (must compile end to end), and an exhaustive ownership-violation injection matrix with legal controls (must be rejected / accepted)",
+         "Direction 1: every program of the C01 space and every error-free corpus snippet goes through diagnostics -> Sierra -> ProgramRegistry -> metadata -> CASM under every configuration, under catch_unwind. Direction 2: every combination of (non-copy kind x first move x second use x position) and (non-droppable kind x leak scenario) must produce an error, while the matching legal control compiles, so the injected violation is what is being detected.",
+         "Linear metadata solvers only; any error diagnostic counts as rejection.", "DESIGN.md §3 C08"),
  "C02": ("exploration", "bounded-exhaustive execution: every corpus/hand-written function x full cross product of boundary inputs x gas ladder x configurations, plus every compile-accepted single-point Sierra mutant, run on the real VM",
          "Every run of the enumerated space must end in Ok (value or Sierra-level panic); a CairoRunError or runner panic is the violation. The accepted-mutant part executes valid Sierra the front end can never produce (swapped same-typed variables, retargeted aligned branches, swapped libfuncs), which is where 'accepted implies safe' can actually fail.",
          "Honest hints only; syscalls out of scope; inputs limited to scalar parameters (<=3) from the boundary domains.", "DESIGN.md §3 C02"),
